@@ -555,7 +555,8 @@ func (g *pgen) stmt(d int) string {
 			hd = "range k, v := " + subj
 			g.lets = append(g.lets, "k", "v")
 		default:
-			hd = "range i, s = " + subj
+			// the assigning form; '_' discards a position, as in an assignment outside range (D59)
+			hd = "range " + r.Pick([]string{"i, s", "i, s", "_, s", "i, _", "_", "s"}) + " = " + subj
 			g.tag("range-assign")
 		}
 		body := ""
